@@ -238,9 +238,13 @@ def o82(ctx):
         ctx.finding(q, grp[0] if grp else fn, "objects must be renumbered per tomogram (groupby('tomo_id'))", grp[0] if grp else fn, m)
 
 
-def obligations():
+def _obligations():
     return [
         Obligation("O8.1", "subset ==, removal != (exact complement), split partition, intersection semi-join; schema and inputs untouched", o81, floor=10),
         Obligation("O8.2", "reset_index(drop=True) on every particle table; object renumbering keeps the 20 fields under the installed pandas", o82, floor=15),
         Obligation("O8.4", "renumber 1..N; de-duplication order; merges: disjoint object ranges incl. the tie, grouping kept, write-sets", o84, floor=25),
     ]
+
+
+def obligations():
+    return _obligations() + [effects_obligation("C08")]
